@@ -1,30 +1,50 @@
-(* C05, weather station part — PARTIAL: register catalogue = the sensor table (write
-   `w <id> <value> <date>`, read `r <id>`).  Proved at the level of the sensor table: a write to a
-   known sensor is read back (value text as rendered by the oracle, date) and leaves the other
-   sensors alone; a write to an unknown sensor changes nothing.  The byte-level statement over
-   interleaved histories is covered by the correspondence and the implementation-level oracle only.
-   Statements only. *)
-From DS Require Import Base.Prelude Model.SmbCommon Model.SmbWeather Proofs.SmbCommon Proofs.SmbWeather.
+(* C05, weather station part — register catalogue = the sensor table: write
+   `w <id> <value> <date>` LF (acknowledged by the reply carrying the new row), read `r <id>` LF;
+   encoding <Sensor><Id>id</Id><Val>f'{float(value):0.6f}'</Val><Date>date</Date><Info>..</Info></Sensor>
+   ([fmt] is the oracle for the value rendering).  Byte level, any threads.  Statements only. *)
+From DS Require Import Base.Prelude Model.SmbCommon Model.SmbWeather Proofs.SmbCommon Proofs.SmbWeather
+  Proofs.SmbWeatherInv.
 
-Theorem C05_weather_written_partial : forall id v dt l s, sen_find id l = Some s ->
-  sen_find id (sen_update id v dt l) = Some (mkSen (sid s) v dt (sinfo s)).
-Proof. exact sen_update_found. Qed.
-Print Assumptions C05_weather_written_partial.
+(* acknowledged write to an existing sensor from an idle thread; then ANY operations of ANY
+   threads none of which completes a write to that sensor (reads, writes to other sensors, refused
+   commands, garbage, half-typed commands); then the read-back from any idle thread returns the
+   written value and date *)
+Theorem C05_weather_readback : forall fmt d t id tok date v s, ws_idle d t = true ->
+  ws_token id -> ws_token tok -> ws_token date -> fmt tok = Some v -> sen_find id (sensors d) = Some s ->
+  exists d1,
+    ws_run fmt d (on_thread t ((W_CHAR :: SP :: join_sp [id; tok; date]) ++ [LF])) =
+      (d1, repeat OTrue (2 + length (join_sp [id; tok; date])) ++ [OReply (ws_enc id v date s)]) /\
+    forall ops t2, ws_no_write fmt id d1 ops ->
+      let d2 := fst (ws_run fmt d1 ops) in
+      ws_idle d2 t2 = true ->
+      snd (ws_run fmt d2 (on_thread t2 (ws_query id))) =
+        repeat OTrue (2 + length id) ++ [OReply (ws_enc id v date s)].
+Proof. exact ws_readback. Qed.
+Print Assumptions C05_weather_readback.
 
-Theorem C05_weather_other_sensors_untouched : forall id id' v dt l, id <> id' ->
-  sen_find id' (sen_update id v dt l) = sen_find id' l.
-Proof. exact sen_update_other. Qed.
-Print Assumptions C05_weather_other_sensors_untouched.
+(* refused: a step that does not complete a write command (wrong argument count, a read with
+   write arguments, a rejected header, any ordinary byte) leaves the whole sensor table unchanged *)
+Theorem C05_weather_not_a_write_unchanged : forall fmt d t b, ws_written d t b = None ->
+  sensors (fst (ws_step fmt d t b)) = sensors d.
+Proof. exact ws_step_not_write. Qed.
+Print Assumptions C05_weather_not_a_write_unchanged.
 
-Theorem C05_weather_unknown_sensor_refused : forall id v dt l, sen_find id l = None ->
-  sen_update id v dt l = l.
-Proof. exact sen_update_unknown. Qed.
-Print Assumptions C05_weather_unknown_sensor_refused.
+(* refused: a write to a sensor that does not exist (answered with the error string) *)
+Theorem C05_weather_unknown_sensor_unchanged : forall fmt d t b id, ws_written d t b = Some id ->
+  sen_find id (sensors d) = None -> sensors (fst (ws_step fmt d t b)) = sensors d.
+Proof. exact ws_step_unknown. Qed.
+Print Assumptions C05_weather_unknown_sensor_unchanged.
+
+(* a write to another sensor leaves this one alone *)
+Theorem C05_weather_frame : forall fmt d t b id, ws_written d t b <> Some id ->
+  sen_find id (sensors (fst (ws_step fmt d t b))) = sen_find id (sensors d).
+Proof. exact ws_step_frame. Qed.
+Print Assumptions C05_weather_frame.
 
 Example C05_weather_ex :
   let cfg := [mkSen [116; 104] [49] [35] [105]] in
   let fmt := fmt_of_table [([53], [53; 46; 48])] in
   snd (ws_run fmt (ws_init cfg) (on_thread 1 [119; 32; 116; 104; 32; 53; 32; 100; 10] ++ on_thread 2 (ws_query [116; 104]))) =
-  repeat OTrue 8 ++ [OReply (WS_OPEN ++ [116; 104] ++ WS_VAL ++ [53; 46; 48] ++ WS_DATE ++ [100] ++ WS_INFO ++ [105] ++ WS_CLOSE)]
-  ++ repeat OTrue 4 ++ [OReply (WS_OPEN ++ [116; 104] ++ WS_VAL ++ [53; 46; 48] ++ WS_DATE ++ [100] ++ WS_INFO ++ [105] ++ WS_CLOSE)].
+  repeat OTrue 8 ++ [OReply (ws_enc [116; 104] [53; 46; 48] [100] (mkSen [116; 104] [49] [35] [105]))]
+  ++ repeat OTrue 4 ++ [OReply (ws_enc [116; 104] [53; 46; 48] [100] (mkSen [116; 104] [49] [35] [105]))].
 Proof. reflexivity. Qed.
